@@ -38,6 +38,27 @@ class IntV(Val):
         return 'IntV(%s)' % self.t
 
 
+class NpIntV(IntV):
+    """A numpy fixed-width integer scalar (np.int8, np.uint8, ...): value t with lo <= t <= hi.  Arithmetic with a
+    python int follows NEP 50 (NumPy 2): the python operand is converted to the scalar's dtype (OverflowError when it
+    does not fit) and + - * wrap around silently (a RuntimeWarning only)."""
+    kind = 'int'
+
+    def __init__(self, t, lo, hi, dtype):
+        IntV.__init__(self, t)
+        self.lo, self.hi, self.dtype = lo, hi, dtype
+
+    def subst(self, var, e):
+        return NpIntV(z3.substitute(self.t, (var, e)), self.lo, self.hi, self.dtype)
+
+    def wrap(self, x):
+        m = self.hi - self.lo + 1
+        return NpIntV(self.lo + (x - self.lo) % m, self.lo, self.hi, self.dtype)
+
+    def __repr__(self):
+        return 'NpIntV(%s:%s)' % (self.dtype, self.t)
+
+
 class BoolV(Val):
     kind = 'bool'
 
